@@ -53,6 +53,10 @@ const (
 	// ENCRYPTED_LEASESET_MIN_SIGNATURE_SIZE is the minimum signature size (Ed25519 = 64 bytes).
 	ENCRYPTED_LEASESET_MIN_SIGNATURE_SIZE int = 64
 
+	// ENCRYPTED_LEASESET_MAX_ENCRYPTED_SIZE is the largest encrypted inner data the
+	// 2-byte inner length field can describe.
+	ENCRYPTED_LEASESET_MAX_ENCRYPTED_SIZE int = 65535
+
 	// ENCRYPTED_LEASESET_MIN_ENCRYPTED_SIZE is the minimum encrypted data size:
 	// ephemeral_key(32) + nonce(12) + plaintext(1 min) + tag(16) = 61 bytes.
 	ENCRYPTED_LEASESET_MIN_ENCRYPTED_SIZE int = 61
